@@ -115,6 +115,21 @@ CHECKS = {
         technique=TECH + 'structural fault enumeration at every site of sampled designs + seeded '
                   'tie-break schedules through the Block.__iter__ hook',
         design='5 C10'),
+    'C07': dict(
+        level='exploration',
+        text='Seeded sessions of 1..4 conditional_assignment programs (random condition trees, '
+             'otherwise anywhere, shared predicates, wire/register/memory targets, defaults=) in '
+             'fresh and shared blocks, with user exceptions at statement boundaries and '
+             'PyRTL-rejected statements injected; every completed program is simulated over all 16 '
+             'predicate valuations or a random tape and each target compared per cycle with a tree '
+             'interpreter; conflicts predicted by an independent literal-set rule must be refused '
+             'at the offending |=. Sampling, not proof.',
+        note='Trusted: the tree interpreter and conflict rule in verifsim/props/c07.py; '
+             'pyrtl.Simulation as the observer. An assignment with an empty path condition may be '
+             'refused (admissible).',
+        technique=TECH + 'histories of elaboration sessions sharing process-global state, with '
+                  'elab_exception / rejected-statement faults; per-cycle tree-interpreter oracle',
+        design='5 C07'),
 }
 
 NOT_APPLICABLE = {
